@@ -377,9 +377,9 @@ PROPS["C09"] = dict(
                        "Ddo.C09.CompCRest: the remaining fields of the cached-compilation contract for the diagram model (ub, fresh, sound for relaxed compilations with cache; thresholds recorded by exact restricted compilations) - so there is no closed theorem over the diagram model with the cache yet",
                        "Ddo.C09.Parallel: the parallel solver with the cache"],
     level_text="Sentence 2 (threshold soundness) is a theorem about the diagram model: theta_sound - for a relaxed compilation, with or without consulting a cache of any content, both cut-set kinds, both tie resolutions, any cutoff position, every cache update (s, d, theta, explored) it emits is justified: any sub-problem with state s at depth d and value v <= theta has every completion either no better than the incumbent absorbed from this diagram (max(lb, best exact value)), or no better than the potential of a cut-set node of this diagram at depth >= d, or (when a cache was consulted) no better than what an entry of that cache strictly deeper covers (2 900 lines: loop invariant of the compilation with the cache filter, pull form of _compute_thresholds, exact flags of both cut-set computations, downward induction over the layers). Sentence 1 at solver level, for best-first pops (the MaxUB order of the shipped solvers): the coverage invariant extended with 'every cache entry is justified by a LIVE open sub-problem that the cache itself cannot prune' holds initially, is preserved by process_one_node with must_explore answered by the cache and compilations meeting the cached contract, for both fringes, survives clear_layer (which only forgets), and implies that a run ending with the empty fringe holds the optimum with a feasible solution (cacheRun_inv, caching_run_optimal, cachePruneOk); three fields of the cached contract (thresholds, exactness, coverage modulo what the cache covers) are discharged from the diagram model. Data-structure part, for every history: the cache is a faithful max-map in (value, explored) order with commuting, idempotent, monotone updates; must_explore is exactly the rule of the property; layers are cleared only when nothing open (and, in parallel, nothing in progress) has that depth.",
-    level_note="Partial: sentence 1 asks for every processing order and the parallel solver; the theorem covers best-first pops of the sequential solver with the remaining contract fields as hypotheses (see stated_not_proved). An exhaustive search over all pop orders of about 220 000 random knapsack instances on the composed executable models found no wrong optimum. The Theta* / SeqCache* files were produced by a delegated proof session and are checked by the same lake build / axiom audit.",
+    level_note="Partial: sentence 1 asks for every processing order and the parallel solver; the theorem covers best-first pops of the sequential solver with the remaining contract fields as hypotheses (see stated_not_proved). The any-order part is explored on the real code: engine seqorder runs the sequential solver (all diagram kinds, both fringes, cache mostly on) with five custom SubProblemRankings - smallest bound first, deepest first, shallowest first, largest value first, pseudo-random - and evaluates optimum, exactness and solution replay (the parallel solver's early termination 'popped bound <= incumbent => drop the fringe' is only meaningful for best-first pops, so custom rankings are a sequential-solver matter). An exhaustive search over all pop orders of about 220 000 random knapsack instances on the composed executable models found no wrong optimum either. The Theta* / SeqCache* files were produced by a delegated proof session and are checked by the same lake build / axiom audit.",
     engines=[dict(name="cache"), dict(name="mdd", label="mdd_clean", args=[]), dict(name="mdd", label="mdd_pooled", args=["--pooled"]),
-             dict(name="seq", label="seq_cache", args=["--focus-cache"]), dict(name="par", label="par_cache", args=["--focus-cache"])],
+             dict(name="seq", label="seq_cache", args=["--focus-cache"]), dict(name="par", label="par_cache", args=["--focus-cache"]), dict(name="seqorder")],
     trusted_base=PAR_TB,
     assumptions=["dashmap operations atomic (C18)"],
     rule=SEQ_RULE + "; --focus-cache: SimpleCache always on, saturating (heavily re-convergent) TableDP instances with few base states and many layers, width 1..2; " + PAR_RULE,
